@@ -1536,6 +1536,10 @@ func (m *serverKeyExchangeMsg) unmarshal(data []byte) bool {
 	if len(data) < 4 {
 		return false
 	}
+	l := int(data[1])<<16 | int(data[2])<<8 | int(data[3])
+	if l != len(data)-4 {
+		return false
+	}
 	m.key = data[4:]
 	return true
 }
